@@ -703,8 +703,15 @@ def install(ip):
     @reg('builtins.require')
     def _require(ip, args, kw):
         c = args[0]
-        if ip.spec_depth_call > 0:
+        if ip.spec_depth_call > 0 and not getattr(ip, 'is_spec_run', False):
+            # the code under proof calls a function through its contract: the callee's precondition is an obligation
+            # of this call site (to be shown from what is known here plus the preconditions of the caller's own contract)
             ip.st.call_obligations.append((kw.get('name', 'callee-precondition'), list(ip.st.pc), c))
+            ip.st.assume(c)
+        elif ip.spec_depth_call > 0:
+            # the caller's *contract* uses the callee: the callee's precondition is inherited by the caller's contract
+            ip.st.inherited = getattr(ip.st, 'inherited', [])
+            ip.st.inherited.append(to_bool(c) if not isinstance(c, bool) else c)
             ip.st.assume(c)
         else:
             ip.st.assume(c)
